@@ -27,11 +27,20 @@ OUTCOMES = {
     "Ec": lambda: ["E", TRAFFIC + [[30, 0, "c", "03e9627965"]]],
     "Ex": lambda: ["E", [[10, 0, "T", "61626364"], [5, 0, "x", ""]]],
 }
+# not in the product alphabet (cost): a connection lost BETWEEN THE FRAGMENTS of a message; server closes with the
+# first / last registered-or-private status code
+SPECIAL = {
+    "Eh": lambda: ["E", TRAFFIC + [[10, 0, "h", ""], [30, 0, "e", ""]]],
+    "Ehr": lambda: ["E", [[10, 0, "h", ""], [30, 0, "r", ""]]],
+    "Ec3": lambda: ["E", TRAFFIC + [[30, 0, "c", "0bb8"]]],
+    "Ec4": lambda: ["E", [[30, 0, "c", "1387627965"]]],
+}
+OUTCOMES_ALL = dict(OUTCOMES, **SPECIAL)
 FINAL = {"close": ["E", [[70, 0, "b", "00"], [40, 0, "c", "03e8"]]], "none": None}
 
 
 def scenario(seq, rc, final="close", ka=False, plan=None, sched=None, cbs=appsim.ALL, ssl=False):
-    dials = [OUTCOMES[o]() for o in seq]
+    dials = [OUTCOMES_ALL[o]() for o in seq]
     if FINAL[final] is not None:
         dials.append(FINAL[final])
     sc = {"cbs": cbs, "ssl": ssl, "rc": rc, "runs": [dials], "horizon": (130 if ka else 40) * TPS,
@@ -80,6 +89,17 @@ def scenarios(ctx):
                     if n <= 2:
                         scs.append(scenario(seq, rc, "none"))
                         scs.append(scenario(seq, rc, "close", ka=True, sched="1" if n == 1 else "01"))
+    # loss between fragments, then service must resume on the next connection; server closes with code 3000 / 4999
+    for seq in (("Eh", "Ee"), ("Ee", "Eh", "Ee"), ("Eh", "R", "Ee"), ("Ehr", "Ee"), ("Eh", "Eh", "Ee"),
+                ("Ec3",), ("Ee", "Ec3"), ("Ec4",), ("R", "Ec4"), ("Eh", "Ec3")):
+        for rc in (TPS, 5 * TPS):
+            for ssl in (False, True):
+                sc = scenario(seq, rc, "close", ssl=ssl)
+                sc["kind"] = "special"
+                scs.append(sc)
+        sc = scenario(seq, TPS, "close", ka=True)
+        sc["kind"] = "special"
+        scs.append(sc)
     # application close() at each point of a reconnecting run
     seqs = [("Ee", "R", "Ee"), ("R", "Ee"), ("Er", "J", "Ex"), ("Ee", "Ee", "Ee")]
     sites = [("on_open", 0), ("on_open", 1), ("on_reconnect", 0), ("on_reconnect", 1), ("on_message", 0),
